@@ -2,7 +2,7 @@
 from . import common as C
 
 PROP = "C17"
-LEAN_MODULE = "RSV.Props.C17"
+LEAN_MODULE = "RSV.Props.C17all"
 RULE = ("proof: kernel evaluation (decide +kernel) of every entry of the static GF(2^8) tables regenerated from "
         "/repo/galois.go against shift-and-reduce arithmetic; correspondence: every table of the *running* package "
         "(static and Leopard run-time tables, dumped through the verif hook) is compared entry by entry with the "
